@@ -146,6 +146,22 @@ def handlers : List (String × Handler) := [
       | .ok (.whole gd) => Json.arr #[Json.str "ok", gdataToJson gd]
       | .ok (.nth a) => Json.arr #[Json.str "ok", Json.arr (a.map intsToJson).toArray]
     pure (okJson (Json.arr (res.map f).toArray))),
+  ("instHistory", fun j => do
+    -- interleaved accesses to the groups of ONE parsed instance: [[i, "whole", ct] | [i, "nth", k, ct]]
+    let via ← getStr j "via"
+    let gs ← (← getArr j "groups").toList.mapM (fun g => do
+      pure (parseVia (ctOf via) ({ gtype := ← getStr g "gtype", enc := ← parseEnc (← g.getObjVal? "enc"), cache := none } : Group Int)))
+    let accs ← (← getArr j "accesses").toList.mapM (fun a => do
+      let p ← a.getArr?
+      match p.toList with
+      | [i, _, ct] => pure ((← i.getNat?), Access.whole (ctOf (← ct.getStr?)))
+      | [i, _, k, ct] => pure ((← i.getNat?), Access.nth (← k.getInt?) (ctOf (← ct.getStr?)))
+      | _ => throw "access needs 3 or 4 entries")
+    let f := fun (r : Except ErrKind (Obs Int)) => match r with
+      | .error e => Json.arr #[Json.str "err", Json.str e.toString]
+      | .ok (.whole gd) => Json.arr #[Json.str "ok", gdataToJson gd]
+      | .ok (.nth a) => Json.arr #[Json.str "ok", Json.arr (a.map intsToJson).toArray]
+    pure (okJson (Json.arr ((runInst gs accs).map (fun p => f p.2)).toArray))),
   ("freshCoordinates", fun j => do
     let gd ← parseGData (← j.getObjVal? "gd")
     let k ← getInt j "k"
